@@ -1505,3 +1505,7 @@ SUBCHECKS = [
         note='sequences of typed reads on one slice (typed payloads, last one cut short) followed by requests relative to '
              'what remains'),
 ]
+
+# the same generated cases, several at a time, checked by threads that run at the same time (core.run_overlapping): per-call state
+# kept in a place two calls share shows only there
+SUBCHECKS.append(__import__('harness.core', fromlist=['overlapped']).overlapped(next(s for s in SUBCHECKS if s.name == 'builder-programs'), k=3, n=(60, 2000)))
